@@ -195,10 +195,10 @@ theorem prog_fwdExitClose {stalled s i u} (hH : Hyp stalled s) (hu : s.subs[i]? 
     rcases this with h | h <;> simp [h]
 
 theorem prog_fwdRemove {stalled s i u} (hH : Hyp stalled s) (hu : s.subs[i]? = some u)
-    (hpc : u.pc = .wantLock) (hbc : s.bc = none) :
+    (hpc : u.pc = .wantLock) (hbc : s.bc = none) (hrt : removeTarget s u.id = some i) :
     ∃ s', step .fixed s (.fwdRemove i) = some s' ∧ Prog stalled s s' := by
   refine ⟨_, ?_, prog_fwd (u' := { u with inList := false, pc := .done }) hH hu ?_ (fun h => h) ?_⟩
-  · simp [step, fwdRemove, hu, hpc, hbc]
+  · simp [step, fwdRemove, hu, hpc, hbc, hrt]
   · simp [subM, hpc, ew]
   · simp
 
@@ -290,7 +290,7 @@ theorem fan_progress (stalled : Nat → Bool) {s : State} {e : Entry} {pc : Nat}
                   exact ⟨_, s', allowed_internal rfl, h1, h2⟩
                 | false =>
                   cases hb : u.buf with
-                  | nil => simp [hb, bufferSize] at hroom
+                  | nil => simp [hb, bufferSize, Kit.Generated.C11.bufferSize] at hroom
                   | cons x rest =>
                     obtain ⟨s', h1, h2⟩ := prog_fwdTake (i := pc) hH hu hp hb
                     exact ⟨_, s', allowed_internal rfl, h1, h2⟩
@@ -441,7 +441,13 @@ theorem close_phase2 {s0 : State} (hr : Reach .fixed s0) (hbc : s0.bc = none)
               obtain ⟨s', h1, h2⟩ := prog_fwdCloseExit (i := i) hH hu hp'
               exact fromProg _ s' rfl h1 h2
             | wantLock =>
+              have hwf := (wf_reach s hr).subs i u hu
+              have hin : u.inList = true := by
+                cases h : u.inList with
+                | true => rfl
+                | false => have := hwf.listPc.mp h; simp [hp'] at this
               obtain ⟨s', h1, h2⟩ := prog_fwdRemove (i := i) hH hu hp' hbc
+                (removeTarget_eq (idinv_reach s hr) hu hin)
               exact fromProg _ s' rfl h1 h2)
   obtain ⟨s', hpath, ⟨hr', _, _⟩, ht⟩ := key s0 ⟨hr, hbc, hp⟩
   exact ⟨s', hpath, hr', ht⟩
